@@ -77,7 +77,7 @@ def scan_writers(rep):
 def run(tier, seed):
     return run_property(
         "C14", tier, seed, level="other",
-        deductive=[("c01_step", r"C14\.I1"), ("c01_rb", r"result_shape|result_is_ndarray|result_rank"), ("c14_seed", r"^C14\.seed.*\.(I1|ones|value_of_g|rejected|no_backprop|collect|nonconstant|constant_receiver|stale_base_link_dropped)")],
+        deductive=[("c01_step", r"C14\.I1|no_other_exception"), ("c01_rb", r"result_shape|result_is_ndarray|result_rank"), ("c14_seed", r"^C14\.seed.*\.(I1|ones|value_of_g|rejected|no_backprop|collect|nonconstant|constant_receiver|stale_base_link_dropped)")],
         enumerations=[scan_writers],
         bounded=[("graph_bounded.py", ["--check", "C14"])],
         replay=_replay,
